@@ -255,11 +255,24 @@ Proof.
   induction es; intros pc; simpl; auto. rewrite app_length, length_compile_expr, IHes. reflexivity.
 Qed.
 
-Lemma length_compile_stmt fe s : forall g next pc brk cont,
-  length (compile_stmt fe g next pc brk cont s) = size_stmt s.
+Lemma length_store_code decl g xs : forall next, length (store_code decl g next xs) = length xs.
+Proof. induction xs as [|[x|] xs IH]; intros next; simpl; auto. destruct decl; simpl; rewrite IH; auto. Qed.
+
+Lemma length_compile_stmt fe fr s : forall g next pc brk cont,
+  length (compile_stmt fe fr g next pc brk cont s) = size_stmt fr s.
 Proof.
   induction s; intros g next pc brk cont; simpl;
-    repeat (rewrite ?app_length, ?length_compile_expr, ?IHs, ?IHs1, ?IHs2, ?IHs3; simpl); try lia.
+    repeat (rewrite ?app_length, ?length_compile_expr, ?length_compile_args, ?repeat_length, ?length_store_code,
+                    ?rev_length, ?IHs, ?IHs1, ?IHs2, ?IHs3; simpl); try lia.
+Qed.
+
+Lemma alloc_results_ext xs : forall g next, exists ext, alloc_results g next xs = ext ++ g.
+Proof.
+  induction xs as [|[x|] xs IH]; intros g next; simpl.
+  - exists []; reflexivity.
+  - destruct (IH ((x, SLoc next) :: g) (S next)) as [e He]. exists (e ++ [(x, SLoc next)]).
+    rewrite He, <- app_assoc. reflexivity.
+  - apply IH.
 Qed.
 
 Lemma env_after_ext s : forall g next, exists ext, env_after g next s = ext ++ g.
@@ -268,6 +281,15 @@ Proof.
   - destruct (IHs1 g next) as [e1 H1]. destruct (IHs2 (env_after g next s1) (next + ndecl s1)) as [e2 H2].
     exists (e2 ++ e1). rewrite H2, H1, app_assoc. reflexivity.
   - exists [(x, SLoc next)]. reflexivity.
+  - destruct decl; [apply alloc_results_ext|exists []; reflexivity].
+Qed.
+
+Lemma wf_alloc_results xs : forall g next, wf g next -> wf (alloc_results g next xs) (next + count_some xs).
+Proof.
+  induction xs as [|[x|] xs IH]; intros g next H; simpl.
+  - rewrite Nat.add_0_r. exact H.
+  - replace (next + S (count_some xs)) with (S next + count_some xs) by lia. apply IH, wf_decl, H.
+  - apply IH, H.
 Qed.
 
 Lemma wf_env_after s : forall g next, wf g next -> wf (env_after g next s) (next + ndecl s).
@@ -275,4 +297,5 @@ Proof.
   induction s; intros g next H; simpl; try (eapply wf_mono; [exact H|lia]).
   - rewrite Nat.add_assoc. apply IHs2, IHs1, H.
   - replace (next + 1) with (S next) by lia. apply wf_decl, H.
+  - destruct decl; [apply wf_alloc_results, H|rewrite Nat.add_0_r; exact H].
 Qed.
